@@ -555,7 +555,7 @@ func c10Gen(g *Gen) {
 	}
 
 	// ---- 7. buffer sizes around the size of the event (copy truncates, index writes panic, full -> empty) ----
-	for i := 0; i < g.Pick(250, 5000); i++ {
+	for i := 0; i < g.Pick(150, 5000); i++ {
 		cc := c10Random(r, r.PickInt([]int{1, 2, 3, 5, 15, 16}), []int{0, 1, 2, 3, 5, 9, 16, 20})
 		size := c10MaxSize(cc)
 		for _, d := range []int{-40, -13, -3, -2, -1, 0, 1, 2, 3} {
